@@ -168,7 +168,7 @@ pub fn resolve_callee<'tcx>(
     }
 }
 
-pub fn fingerprint_body<'tcx>(body: &mir::Body<'tcx>) -> String {
+pub fn fingerprint_body<'tcx>(tcx: TyCtxt<'tcx>, env: TypingEnv<'tcx>, body: &mir::Body<'tcx>) -> String {
     // span-free rendering of the body: local types, statements, terminators
     let mut s = String::new();
     use std::fmt::Write;
@@ -195,6 +195,45 @@ pub fn fingerprint_body<'tcx>(body: &mir::Body<'tcx>) -> String {
             let _ = writeln!(s, "  -> {:?}", t.kind);
         }
     }
+    // evaluated values of every constant the body mentions (a `const X: bool = cfg!(..)` has the
+    // same path in every configuration but not the same value)
+    {
+        use rustc_middle::mir::visit::Visitor;
+        struct CV<'a, 'tcx> {
+            tcx: TyCtxt<'tcx>,
+            env: TypingEnv<'tcx>,
+            out: &'a mut String,
+        }
+        impl<'a, 'tcx> Visitor<'tcx> for CV<'a, 'tcx> {
+            fn visit_const_operand(&mut self, c: &mir::ConstOperand<'tcx>, _loc: mir::Location) {
+                use std::fmt::Write;
+                match c.const_.eval(self.tcx, self.env, c.span) {
+                    Ok(mir::ConstValue::Scalar(mir::interpret::Scalar::Int(i))) => {
+                        let _ = writeln!(self.out, "cv {:?}", i);
+                    }
+                    Ok(mir::ConstValue::Scalar(mir::interpret::Scalar::Ptr(p, _))) => {
+                        let (prov, off) = p.into_raw_parts();
+                        let h = alloc_hash(self.tcx, prov.alloc_id());
+                        let _ = writeln!(self.out, "cv ptr+{} {:016x}", off.bytes(), h);
+                    }
+                    Ok(mir::ConstValue::Indirect { alloc_id, offset }) => {
+                        let h = alloc_hash(self.tcx, alloc_id);
+                        let _ = writeln!(self.out, "cv ind+{} {:016x}", offset.bytes(), h);
+                    }
+                    Ok(mir::ConstValue::ZeroSized) => {}
+                    Ok(mir::ConstValue::Slice { alloc_id, meta }) => {
+                        let h = alloc_hash(self.tcx, alloc_id);
+                        let _ = writeln!(self.out, "cv slice {} {:016x}", meta, h);
+                    }
+                    Err(_) => {
+                        let _ = writeln!(self.out, "cv <unevaluated>");
+                    }
+                }
+            }
+        }
+        let mut cv = CV { tcx, env, out: &mut s };
+        cv.visit_body(body);
+    }
     let s = normalize_ids(&s);
     if std::env::var("VERIF_FP_DUMP").is_ok() {
         return s;
@@ -203,6 +242,25 @@ pub fn fingerprint_body<'tcx>(body: &mir::Body<'tcx>) -> String {
     let h1 = fnv(s.as_bytes(), 0xcbf29ce484222325);
     let h2 = fnv(s.as_bytes(), 0x84222325cbf29ce4);
     format!("{:016x}{:016x}", h1, h2)
+}
+
+fn alloc_hash<'tcx>(tcx: TyCtxt<'tcx>, id: mir::interpret::AllocId) -> u64 {
+    let alloc = match tcx.global_alloc(id) {
+        mir::interpret::GlobalAlloc::Memory(a) => a,
+        mir::interpret::GlobalAlloc::Static(did) => match tcx.eval_static_initializer(did) {
+            Ok(a) => a,
+            Err(_) => return 0,
+        },
+        _ => return 1,
+    };
+    let a = alloc.inner();
+    let bytes = a.inspect_with_uninit_and_ptr_outside_interpreter(0..a.len());
+    let mut h = fnv(bytes, 0xcbf29ce484222325);
+    // nested pointers: mix in the hashes of their targets (depth-limited by recursion on small consts)
+    for (_, p) in a.provenance().ptrs().iter() {
+        h = h.wrapping_mul(0x100000001b3) ^ alloc_hash(tcx, p.alloc_id());
+    }
+    h
 }
 
 fn fnv(b: &[u8], seed: u64) -> u64 {
@@ -280,6 +338,17 @@ pub fn run<'tcx>(tcx: TyCtxt<'tcx>) -> String {
                         }
                     }
                     c.set(
+                        "arg_pointee_sizes",
+                        J::Arr(args.iter().map(|a| {
+                            let t = a.node.ty(&body, tcx);
+                            let pt = t.builtin_deref(true).unwrap_or(t);
+                            match tcx.layout_of(env.as_query_input(pt)) {
+                                Ok(l) if l.is_sized() => J::i(l.size.bytes()),
+                                _ => J::Null,
+                            }
+                        }).collect()),
+                    );
+                    c.set(
                         "arg_tys",
                         J::arr_s(args.iter().map(|a| format!("{:?}", a.node.ty(&body, tcx)))),
                     );
@@ -307,7 +376,7 @@ pub fn run<'tcx>(tcx: TyCtxt<'tcx>) -> String {
             "local" => J::Bool(is_local_inst(inst)),
             "site" => J::s(span_str(tcx, body.span)),
             "blocks" => J::i(body.basic_blocks.len()),
-            "fingerprint" => J::s(fingerprint_body(&body)),
+            "fingerprint" => J::s(fingerprint_body(tcx, env, &body)),
             "args" => J::arr_s(sig_in),
             "ret" => J::s(format!("{:?}", body.return_ty())),
             "vis" => J::s(vis),
